@@ -136,6 +136,8 @@ Hypothesis Hv : valid s = true.
 Hypothesis I : LockInv st.
 Hypothesis D : DataInv (sc_scripts s) st.
 Hypothesis Hdone : all_done st = true.
+Variable pk : nat.                       (* largest occupancy of the locked region seen on the way *)
+Hypothesis Hpk : pk <= 1.
 
 Lemma final_loc : forall t th sc, nth_error (st_threads st) t = Some th -> nth_error (sc_scripts s) t = Some sc ->
   th_loc th = final_local sc.
@@ -190,7 +192,7 @@ Proof.
   apply in_map_iff. exists x. split; auto. unfold triple. congruence.
 Qed.
 
-Lemma final_meets_spec : spec s (observe s st) = true.
+Lemma final_meets_spec : spec s (observe s pk st) = true.
 Proof.
   destruct (valid_scripts _ Hv) as (sc0 & rest & Hs & H0 & Hr).
   pose proof (di_tbl _ _ D) as T.
@@ -202,7 +204,7 @@ Proof.
   { pose proof (di_len _ _ D) as Hl. rewrite Hths, Hs in Hl. discriminate. }
   assert (Hth0 : nth_error (st_threads st) 0 = Some th0) by (rewrite Hths; reflexivity).
   assert (Hsc0 : nth_error (sc_scripts s) 0 = Some sc0) by (rewrite Hs; reflexivity).
-  unfold spec, observe. cbn [o_done o_verdicts o_wfail o_adv o_distinct o_foreign o_rest o_entries].
+  unfold spec, observe. cbn [o_done o_verdicts o_wfail o_adv o_distinct o_foreign o_rest o_overlap o_entries].
   rewrite Hths. cbn [tl]. rewrite Hdone, Hnone, Hall.
   repeat (apply andb_true_iff; split); auto.
   - (* verdicts *)
@@ -221,6 +223,8 @@ Proof.
   - (* distinct, within range *)
     apply nodup_N_true. apply (ti_seqs _ _ T).
   - apply forallb_forall. intros x Hx. pose proof (ti_seq _ _ T x Hx). apply andb_true_iff. split; [apply N.leb_le|apply N.ltb_lt]; lia.
+  - (* never two threads inside the locked region *)
+    apply N.eqb_eq. lia.
   - (* the outstanding set *)
     apply (nodup_keys_true _ (ti_keys _ _ T)).
   - apply forallb_forall. intros y Hy. apply in_map_iff in Hy. destruct Hy as (x & <- & Hx).
@@ -237,15 +241,14 @@ Hypothesis Hw : wiring_ok (cfg_wiring c) = true.
 Hypothesis Hunl : cfg_reporter_unlocks c = true.
 
 Lemma every_schedule_meets_spec : forall s sched, valid s = true ->
-  let st := complete c (exec c sched (init_state s)) in
-  all_done st = true /\ spec s (observe s st) = true.
+  all_done (complete c (exec c sched (init_state s))) = true /\ spec s (completed_obs c s sched) = true.
 Proof.
-  intros s sched Hv st.
+  intros s sched Hv. unfold completed_obs. set (st := complete c (exec c sched (init_state s))).
   pose proof (wiring_ok_good _ Hw) as Hg. pose proof (wiring_good_all_lock _ Hg) as Hl.
   destruct (both_exec c Hg Hunl (sc_scripts s) sched (init_state s) (lockinv_init s) (datainv_init s Hv)) as (I1 & D1).
   destruct (complete_done c Hl Hunl _ I1) as (Hd & I2).
   assert (D2 : DataInv (sc_scripts s) st) by (apply both_drain; auto).
-  split; auto. apply final_meets_spec; auto.
+  split; auto. apply final_meets_spec; auto. apply run_peak_le_1; auto. apply lockinv_init.
 Qed.
 
 End All.
@@ -253,5 +256,5 @@ End All.
 Lemma run_meets_spec : forall s, valid s = true -> spec s (run s) = true.
 Proof.
   intros s Hv. unfold run, run_with.
-  apply (every_schedule_meets_spec (cfg_of ts_table true s) ts_wiring_ok eq_refl s (sc_sched s) Hv).
+  apply (proj2 (every_schedule_meets_spec (cfg_of ts_table true s) ts_wiring_ok eq_refl s (sc_sched s) Hv)).
 Qed.
